@@ -15,6 +15,8 @@ theorem isRun_splitAt (a : AS) (k s n e x y : Nat) :
 def pSplit (t : Tab) (h : Int) (s n rest : Int) : Tab :=
   pAddToFree (pSetSize (pSetSize t s n) (s + n) rest) h (s + n)
 
+@[simp] theorem heads_pSplit (t : Tab) (h s n rest : Int) : (pSplit t h s n rest).heads = t.heads := by simp [pSplit]
+
 theorem split_ok {t : Tab} {a : AS} {L : Nat → List Nat} {k s e n : Nat} (debug : Bool)
     (h : Rel t a L) (hr : IsRun a s e) (hown : a.own s = some k) (hn : 1 ≤ n) (hf : s + n < e) :
     split debug t (hd k) (s : Int) (n : Int) = .ok (pSplit t (hd k) s n ((e : Int) - s - n)) := by
